@@ -164,6 +164,8 @@ func (idx *IndexWriter) WriteToBoltDatabase(db *bbolt.DB) error {
 				return fmt.Errorf("failed to commit transaction: %w", err)
 			}
 
+			verifPoint("writer.batch")
+
 			tx, err = db.Begin(true)
 			if err != nil {
 				return fmt.Errorf("failed to start new transaction: %w", err)
@@ -176,6 +178,8 @@ func (idx *IndexWriter) WriteToBoltDatabase(db *bbolt.DB) error {
 	if err := tx.Commit(); err != nil {
 		return fmt.Errorf("failed to commit transaction: %w", err)
 	}
+
+	verifPoint("writer.final")
 
 	return nil
 }
